@@ -41,7 +41,7 @@ type Leaf struct {
 var layoutCache = map[string][]Leaf{}
 
 func typeKey(t types.Type) string {
-	return types.TypeString(t, nil)
+	return types.TypeString(t, nil) + "|" + typeID(t)
 }
 
 func isNamed(t types.Type, pkgPath, name string) bool {
@@ -62,8 +62,7 @@ func opaqueKind(t types.Type) (leafKind, bool) {
 		return kTime, true
 	case isNamed(t, "sync", "Mutex"), isNamed(t, "sync", "RWMutex"), isNamed(t, "sync", "Once"), isNamed(t, "sync", "WaitGroup"):
 		return kOpaque, true
-	case isNamed(t, "strings", "Builder"), isNamed(t, "bytes", "Buffer"), isNamed(t, "net/http", "Client"),
-		isNamed(t, "net/http", "Header"), isNamed(t, "net/url", "URL"), isNamed(t, "net/http", "Request"), isNamed(t, "net/http", "Response"):
+	case isNamed(t, "strings", "Builder"), isNamed(t, "bytes", "Buffer"), isNamed(t, "net/http", "Client"):
 		return kOpaque, true
 	}
 	return 0, false
@@ -155,8 +154,27 @@ func tupleRange(t *types.Tuple, i int) (off, n int) {
 
 // typeID is a short stable identifier for heap component names.
 func typeID(t types.Type) string {
-	s := types.TypeString(t, func(p *types.Package) string { return p.Name() })
-	return s
+	switch u := t.(type) {
+	case *types.Basic:
+		switch u.Kind() {
+		case types.Uint8:
+			return "uint8"
+		case types.Int32:
+			return "int32"
+		}
+		return u.Name()
+	case *types.Pointer:
+		return "*" + typeID(u.Elem())
+	case *types.Slice:
+		return "[]" + typeID(u.Elem())
+	case *types.Array:
+		return fmt.Sprintf("[%d]%s", u.Len(), typeID(u.Elem()))
+	case *types.Map:
+		return "map[" + typeID(u.Key()) + "]" + typeID(u.Elem())
+	case *types.Alias:
+		return typeID(types.Unalias(u))
+	}
+	return types.TypeString(t, func(p *types.Package) string { return p.Name() })
 }
 
 func intRange(t types.Type) (lo, hi *big.Int, ok bool) {
